@@ -1536,6 +1536,9 @@ class Engine:
       st.frames.append(fr)
       st.spec_depth += 1
       try:
+        if cl.let:
+          overlay[cl.let] = self.ev(cl.node, st)
+          continue
         g = self.truthy(st, self.ev(cl.node, st))
       finally:
         st.spec_depth -= 1
